@@ -9,7 +9,9 @@ NOTE = ("Theorems C03_* (Props/C03.lean) about BV.iterMatches/rewriteLines: ever
 
 def e2e(rng, set_version):
     pr = rwcommon.gen_ok_project(rng)
+    pr["variants"] = True          # implicit self pattern, non-normalised file keys (see projgen.gen_project)
     case = {"vp": pr["vp"], "old": pr["old"], "new": pr["new"], "files": pr["files"], "file_patterns": pr["file_patterns"],
+            "implicit_self": pr["implicit_self"], "key_alias": pr["key_alias"],
             "set_version": set_version, "date": pr["date"], "flags": pr["flags"]}
     with rwcommon.setup(pr) as p:
         before = p.snapshot()
